@@ -86,6 +86,9 @@ func universe() []namedVal {
 		{"fnVal", func(v *pongo2.Value) *pongo2.Value { return v }}, {"fnCtx", func(c *pongo2.ExecutionContext) string { return "c" }}, {"fnAny", func(a any) string { return fmt.Sprint(a) }},
 		{"fnStr", func(s fmt.Stringer) string { return s.String() }}, {"fnNone", func() {}}, {"fn3", func() (int, int, int) { return 1, 2, 3 }}, {"fn2ne", func() (int, string) { return 1, "x" }},
 		{"fnNil", (func() string)(nil)}, {"fnMap", func() map[string][]int { return map[string][]int{"k": {1}} }}, {"fnPtr", func() *inner { return nil }}, {"fnIface", func() any { return nil }},
+		// callables that panic (string, error value, custom value) and one whose typed pointer parameter may get nil
+		{"fnPanicS", func() string { panic("panic with a plain string") }}, {"fnPanicE", func() string { panic(errors.New("panic with an error value")) }},
+		{"fnPanicC", func(i int) string { panic(struct{ Code int }{i}) }}, {"fnTakesPtr", func(p *inner) string { return fmt.Sprint(p == nil) }},
 		{"fnVarS", func(p string, xs ...string) string { return p }}, {"fnVarV", func(xs ...*pongo2.Value) int { return len(xs) }}, {"fnVarA", func(xs ...any) int { return len(xs) }},
 	}
 }
